@@ -19,11 +19,13 @@ def _gen(args):
 
 
 def _solve(args):
-    key, text, relaxed, t_ms, c_ms, noseq = args
+    key, text, relaxed, t_ms, c_ms, noseq = args[:6]
+    linear = args[6] if len(args) > 6 else None
+    sliced = args[7] if len(args) > 7 else None
     from pyvc import smt
 
     try:
-        return key, smt.solve_text(text, relaxed, t_ms, c_ms, noseq)
+        return key, smt.solve_text(text, relaxed, t_ms, c_ms, noseq, linear, sliced)
     except Exception as e:
         return key, {"status": "undecided", "backend": "none", "seconds": 0.0, "reason": f"solver front end: {type(e).__name__}: {e}"}
 
@@ -41,7 +43,7 @@ def verify_all(qualnames, opts=None, jobs=16, pool=None):
         for ri, rep in enumerate(reports):
             for oi, ob in enumerate(rep["obligations"]):
                 if ob.get("status") == "pending":
-                    tasks.append(((ri, oi), ob.pop("smt2"), ob.pop("relaxed", None), opts.get("timeout_ms", 10000), opts.get("cvc5_timeout_ms", 20000), ob.pop("noseq", None)))
+                    tasks.append(((ri, oi), ob.pop("smt2"), ob.pop("relaxed", None), opts.get("timeout_ms", 10000), opts.get("cvc5_timeout_ms", 20000), ob.pop("noseq", None), ob.pop("linear", None), ob.pop("sliced", None)))
         for (ri, oi), verdict in pool.imap_unordered(_solve, tasks, chunksize=1):
             reports[ri]["obligations"][oi].update(verdict)
         for rep in reports:
